@@ -1,7 +1,8 @@
 #!/bin/bash
 # Regenerate the Gallina translation of the Rust source with the rs2coq translator:
 #   gen/Src.v  gen/SrcBigint.v  gen/SrcSlow.v  gen/SrcParse.v        (the library, $RS2COQ_SRC)
-#   gen/SrcFrontSimple.v  SrcFrontFuzz.v  SrcFrontTest.v  SrcFrontEtc.v   (the shipped string
+#   gen/SrcFrontSimple.v  SrcFrontFuzz.v  SrcFrontTest.v  SrcFrontEtc.v  SrcFrontRng.v  SrcFrontRand.v
+#   gen/SrcFrontUnit.v   (the shipped string
 #       front-ends, read below $RS2COQ_SRC/..; a missing one only yields OMITTED comments)
 #   gen/SrcStackVec.v   (the unsafe vector back-end stackvec.rs over the cells of model/RawVec.v)
 #   gen/SrcHeapVec.v    (the wrappers of heapvec.rs over the std `Vec` primitives of model/SrcLibHeap.v)
@@ -65,7 +66,7 @@ if [ -n "${RS2COQ_OUT:-}" ] && [ $# -eq 0 ]; then
   exit 0
 fi
 
-FILES="Src.v SrcBigint.v SrcSlow.v SrcParse.v SrcFrontSimple.v SrcFrontFuzz.v SrcFrontTest.v SrcFrontEtc.v SrcStackVec.v SrcHeapVec.v"
+FILES="Src.v SrcBigint.v SrcSlow.v SrcParse.v SrcFrontSimple.v SrcFrontFuzz.v SrcFrontTest.v SrcFrontEtc.v SrcStackVec.v SrcHeapVec.v SrcFrontRng.v SrcFrontRand.v SrcFrontUnit.v"
 mkdir -p "$TMP/out"
 timeout 120 "$BIN" "$SRC" "$TMP/out" 2> "$TMP/err"
 rc=$?
